@@ -114,6 +114,7 @@ func c18Mode(args []string) {
 				}
 			}
 		}
+		otherSeps := []string{"!", "|", "&", "+", "*", "=", "?", "#", "%", "^", "~", "_", "-", ".", ":", "'", "\"", "(", ")", "[", "]", "{", "}", "\t", "\n"}
 		for _, base := range vocab {
 			for _, fr := range frags {
 				test(base+fr, base, fr, "glued-after")
@@ -123,6 +124,10 @@ func c18Mode(args []string) {
 				test(base+","+fr, base, fr, "appended-comma")
 				test(base+";"+fr, base, fr, "appended-semicolon")
 				test(base+"/"+fr, base, fr, "appended-slash")
+				// any other one-byte separator a handler might split on
+				for _, sp := range otherSeps {
+					test(base+sp+fr, base, fr, "appended-sep")
+				}
 				for i := 1; i < len(base); i++ {
 					test(base[:i]+fr+base[i:], base, fr, "inserted")
 					if base[i] == ' ' || base[i] == ',' {
@@ -193,6 +198,6 @@ func c18Mode(args []string) {
 	}
 	sum.Distribution["handlers"] = len(props)
 	sum.Nontrivial = len(distinct)
-	sum.Samples = append(sum.Samples, map[string]any{"property": "color", "base": "red", "fragment": "expression(alert(1))", "placements": "glued-after, glued-before, appended, prepended, comma, semicolon, slash, inserted at every byte position"})
+	sum.Samples = append(sum.Samples, map[string]any{"property": "color", "base": "red", "fragment": "expression(alert(1))", "placements": "glued-after, glued-before, appended, prepended, comma, semicolon, slash, 25 other one-byte separators, inserted at every byte position"})
 	sum.emit()
 }
